@@ -28,6 +28,10 @@ def fixed_cases():
                                         "u2": {"constructor": "fx.NewA", "arguments": ["@f"]}, "ok": {"constructor": "fx.NewB", "arguments": [2**63]}}},
         {"meta": dict(fx), "services": {"v1": {"value": "fx.Global"}, "v2": {"value": "&fx.GlobalVal"}, "v3": {"value": "fx.Obj{}"}, "v4": {"value": "&fx.Obj{}"},
                                         "t1": {"type": "*fx.Obj"}, "t2": {"type": "fx.Obj"}, "c": {"constructor": "fx.NewA", "arguments": ["@v1", "@v2", "@v3", "@v4", "@t1", "@t2"]}}},
+        # a service that is nothing but a declared type is the zero value of that type — for a pointer type the nil pointer, which
+        # can take neither a field nor a dependant's trust: it is never replaced by a fresh object
+        {"meta": dict(fx), "services": {"t3": {"type": "*fx.Obj", "fields": {"F1": 1}},
+                                        "t6": {"type": "*fx.Obj"}, "d3": {"constructor": "fx.NewA", "arguments": ["@t3"]}, "d6": {"constructor": "fx.NewA", "arguments": ["@t6"]}}},
         # literals that PRINT alike but differ in YAML type, in every position and across services and parameters:
         # each must keep its own type and value (no sharing between equal-looking arguments)
         {"meta": dict(fx), "parameters": {"pi": 10, "ps": "10", "pb": True, "pbs": "true", "pn": None, "pns": "<nil>", "pf": 1.5, "pfs": "1.5"},
